@@ -173,6 +173,13 @@ def _hook_factory(log: List[Any]) -> Callable[[Any, str], Any]:
     return hook
 
 
+class StaleForward:
+    """the cached dynamo_forward of the SOURCE module (copied atomically by deepcopy)"""
+
+    def pyvc_call(self, interp: Any, args: List[Any], kwargs: Dict[str, Any]) -> Any:
+        return "result-of-the-stale-dynamo_forward-of-the-source"
+
+
 MODULE_CLS = ExtClass("Module", (), {})
 
 
@@ -196,7 +203,7 @@ def mk_module(ctx: Ctx, name: str, transformed_before: bool, it: Any) -> ObjVal:
         m.attrs["rerun_transform"] = False
         m.attrs["base_forward"] = BoundMethod(m, cls.attrs["forward"])
         m.attrs["forward"] = opaque(ctx, "stale_new_forward_closure_of_the_source")
-        m.attrs["dynamo_forward"] = opaque(ctx, "stale_dynamo_forward_of_the_source")
+        m.attrs["dynamo_forward"] = StaleForward()
     return m
 
 
